@@ -1,7 +1,9 @@
 """C11: batch lifecycle. History machine over add-item / flush / cancel / item.value() /
 batch.value() / batch.error() / state queries on a BatchBase subclass (flush bodies from a fault
 plan) and on the built-in DebugBatch, against an explicit reference state machine."""
-from .. import real
+import zlib
+
+from .. import real, prog
 from ..prog import SimError, SimBaseError
 
 A = real.A
@@ -198,7 +200,10 @@ class C11(object):
                 ops.append(["sub_raise", rng.randint(0, 3)])
             else:
                 ops.append(["query", rng.randint(0, 3)])
-        return {"debug": debug, "plans": plans, "ops": ops}
+        case = {"debug": debug, "plans": plans, "ops": ops}
+        # one history in four: every exception instance user code raises or passes in is falsy
+        case["falsy_errors"] = zlib.crc32(repr(sorted(case.items())).encode()) % 4 == 0
+        return case
 
     def sample(self, case, r):
         return case
@@ -261,6 +266,7 @@ class C11(object):
 
     def run(self, case, build):
         real.reset_world()
+        prog.FALSY[0] = bool(case.get("falsy_errors"))
         W = _World(case.get("plans") or [{}], bool(case.get("debug")))
         out = W.out
         refb = []  # RefBatch per real batch index
